@@ -71,9 +71,15 @@ def run_case(c):
         a = eng.ContiguousBlockAllocator(c['size'], c['pos'], c['off'])
     except Exception as e:
         return [], [[code_of(e), 0, 0, [], [], None, True, 'init:' + type(e).__name__]]
-    live, last_freed = [], None
+    live, last_freed, got = [], None, []
     for op in c['ops']:
         CH.last = None
+        if op[0] == 'fi':
+            if op[1] >= len(got) or got[op[1]] is None:
+                continue
+            op = ['f', got[op[1]]]
+            if op[1] in live:
+                live.remove(op[1])
         if op[0] == 'fl':
             if not live:
                 continue
@@ -86,6 +92,7 @@ def run_case(c):
             if op[0] == 'a':
                 CH.r = op[2]
                 r = a.alloc(op[1])
+                got.append(r)
                 if r is not None:
                     live.append(r)
             else:
@@ -171,6 +178,46 @@ def probe_reserve_corruption():
             'corrupts': again == 0}
 
 
+def run_multi_case(c):
+    """Several allocators alive at the same time (the partitions of one index space), interleaved ops
+    ['a', client, n, r] | ['fl', client, j] | ['f', client, addr].  Returns per client (concrete ops, entries)."""
+    allocs = [eng.ContiguousBlockAllocator(*p) for p in c['params']]
+    logs = [([], []) for _ in allocs]
+    lives = [[] for _ in allocs]
+    for op in c['ops']:
+        k = op[1]
+        a = allocs[k]
+        CH.last = None
+        try:
+            if op[0] == 'a':
+                CH.r = op[3]
+                r = a.alloc(op[2])
+                if r is not None:
+                    lives[k].append(r)
+                cop = ['a', op[2], op[3]]
+            else:
+                if op[0] == 'fl':
+                    if not lives[k]:
+                        continue
+                    addr = lives[k].pop(op[2] % len(lives[k]))
+                else:
+                    addr = op[2]
+                r = a.free(addr)
+                cop = ['f', addr]
+        except Exception as e:
+            logs[k][0].append(op[:1] + op[2:])
+            logs[k][1].append([code_of(e), 0, 0, [], [], CH.last, True, type(e).__name__])
+            break
+        logs[k][0].append(cop)
+        top, cells, freed, alias = observe(a)
+        logs[k][1].append([0 if r is None else 1, 0 if r is None else r, top, cells, freed, CH.last, alias])
+        # nothing may be shared between allocator instances
+        for j, b in enumerate(allocs):
+            if j != k and (b._array is a._array or b._freed is a._freed):
+                logs[k][1][-1][6] = False
+    return logs
+
+
 def probe_foreign_free():
     """free(addr) of an address that does NOT belong to this allocator's partition (e.g. a hardware bus, another
     client's bus) must not free one of its live blocks.  Returns the scenarios in which it does."""
@@ -206,6 +253,7 @@ def main():
     rr = [run_reserve_case(c) for c in p.get('reserve_cases', [])]
     out['reserve_ops'] = [x[0] for x in rr]
     out['reserve_cases'] = [x[1] for x in rr]
+    out['multi'] = [run_multi_case(c) for c in p.get('multi_cases', [])]
     if p.get('probe_reserve'):
         out['reserve_probe'] = probe_reserve_corruption()
     json.dump(out, open(sys.argv[2], 'w'))
